@@ -59,6 +59,20 @@ def cases(tier, rng):
     for p in ["λ1;", "λ1;λ2;", "`abc`", "1 2 3", "⟨`a`|1⟩", "kA", "3ɾ", "⟨⟩", "λx;", "@f|1;", "1£", "ki", "1 0/"]:
         for fl in ["j", "s", "W", "d", "L", "G", "g", "C", "l", "Ṫ", "ṡ", "J", "S", "…", "o", "O", "c"]:
             out.append((p, fl, [], True))
+    # inputs that are valid Python literals but no Vyxal values, and malformed ones: kept as strings, never an error
+    odd = ["None", "...", "1e999", "-1e999", "b'x'", "1j", "True", "(1, 2)", "{1: 2}", "{1, 2}", "[None, 'x']", "[1, None]",
+           "{'a': None}", "[[...]]", "1_000", "0x10", "0o7", "''", "[", "]", "\\", "'", "\"", "1e", "--1", "[1,", "nan", "inf",
+           "[1e999]", "{None: [1e999]}", "-", "+", ".", "1.", "١٢", "²"]
+    for t in odd:
+        for prog in ("1 2+,", "?,", ",", "+", "?L,", "W", "?:E_", "?Ė"):
+            out.append((prog, "", [t], True))
+        out.append(("?,?,", "", ["1", t], True))
+    # runs that fail by construction, eagerly and inside lazily evaluated values reached by each way of printing
+    fail = ["λx;†", "←q", "¼", "3ɾλx;M", "3ɾλx;M,", "3ɾƛ←q;", "3ɾƛ←q;,", "3ɾƛ¼;", "3ɾ'←q;", "3ɾλx;ML,", "`abc`λx;M₴", "3ɾƛ←q;…",
+            "3ɾƛ¼;₴", "3ɾλx;M…", "3ɾƛ←q;w", "⟨3ɾλx;M⟩", "3ɾλx;M:", "1 3ɾλx;M\""]
+    for p in fail:
+        for fl in ["", "j", "s", "W", "S", "L"]:
+            out.append((p, fl, [], True, {"mustfail": True, "budget": 10 ** 6, "reclimit": 1200}))
     return out
 
 
@@ -79,7 +93,7 @@ def main(tier):
     x = st["extra"].get("X", [None] * len(cs))
     tally = {}
     evaluated = 0
-    for (p, fl, inp, _), xv, vv, o in zip(cs, x, v, obs):
+    for (p, fl, inp, *_), xv, vv, o in zip(cs, x, v, obs):
         xv = xv or "skip"
         tally[xv] = tally.get(xv, 0) + 1
         if xv.startswith("violation"):
@@ -96,8 +110,8 @@ def main(tier):
         {
             "states": mc["distinct"], "transitions": mc["generated"], "traces_validated_against_impl": evaluated,
             "samples": [{"program": p, "flags": fl, "inputs": inp, "verdict": xv}
-                        for (p, fl, inp, _), xv in list(zip(cs, x))[:: max(1, len(cs) // 14)][:14]],
-            "evaluations": len(cs), "distinct_nontrivial": len({(p, fl, repr(inp)) for (p, fl, inp, _), xv in zip(cs, x) if xv and xv != "skip"}),
+                        for (p, fl, inp, *_), xv in list(zip(cs, x))[:: max(1, len(cs) // 14)][:14]],
+            "evaluations": len(cs), "distinct_nontrivial": len({(p, fl, repr(inp)) for (p, fl, inp, *_), xv in zip(cs, x) if xv and xv != "skip"}),
             "rule": "structured random programs of the C01 core (every printing element) run online; 10 tainted Python "
                     f"expressions x {len(USES)} uses (evaluate, call, Vyxal-exec, inside every structure, via variables/register/"
                     "global array) as literal, as explicit input, as implicit input, as list/str inputs; failing programs x "
